@@ -660,3 +660,97 @@ pub fn c28(tier: Tier) -> i32 {
     });
     rep.finish()
 }
+
+// ---------------------------------------------------------------------------------------------
+// C18 Growing one structure never corrupts another
+// ---------------------------------------------------------------------------------------------
+
+pub fn c18(tier: Tier) -> i32 {
+    use crate::rt::{Recorder, with_hooks};
+    let rep = Report::new("C18", tier);
+    rep.rule("all enabled histories over {CreateNodes(n) for n in 1,511,512,513,1025, property writes (short and 2000-byte keys), relationship writes, Compact, CreateIndex + indexed write, SetVector, DropOpen, CloseOpen} up to the stated depth, executed on the real engine with a page-ownership monitor on every page write (owner tag recorded when the page is allocated must equal the tag of the writing structure); oracle: no foreign write, dump == GraphModel at the end and after reopen, and vacuum's reachability walk succeeds with an unchanged dump; non-trivial = history whose node table crosses a page boundary (>= 512 nodes)");
+    let nodes = vec![1u64, 2];
+    let mut alphabet: Vec<Op> = Vec::new();
+    let bases = [1000u64, 3000, 5000, 7000, 9000];
+    for (i, n) in [1u32, 511, 512, 513, 1025].iter().enumerate() {
+        alphabet.push(Op::CreateNodes { base: bases[i], n: *n });
+    }
+    alphabet.push(Op::Tx(vec![
+        Op::CreateNode { e: 1, labels: vec!["A"] },
+        Op::CreateNode { e: 2, labels: vec!["A"] },
+        Op::CreateEdge { s: 1, t: "R", d: 2 },
+        Op::SetNodeProp { e: 1, k: "k", v: Val::I(1) },
+        Op::SetNodeProp { e: 1, k: k_long(), v: Val::I(1) },
+        Op::SetEdgeProp { s: 1, t: "R", d: 2, k: "k", v: Val::I(1) },
+    ]));
+    alphabet.push(Op::SetNodeProp { e: 2, k: k_long(), v: Val::S("s") });
+    alphabet.push(Op::SetNodeProp { e: 1, k: "k", v: Val::I(2) });
+    alphabet.push(Op::CreateEdge { s: 2, t: "R", d: 1 });
+    alphabet.push(Op::SetVector { e: 1, v: [1, 1] });
+    alphabet.push(Op::Compact);
+    alphabet.push(Op::CreateIndex { l: "A", k: "k" });
+    alphabet.push(Op::DropOpen);
+    alphabet.push(Op::CloseOpen);
+    let mut sp = spec();
+    sp.index_probes = vec![("A".into(), "k".into(), nervusdb::PropertyValue::Int(1)), ("A".into(), "k".into(), nervusdb::PropertyValue::Int(2))];
+    let sp = &sp;
+    let ex = Explorer { rep: &rep, alphabet, node_ids: nodes, max_depth: tier.pick(3, 4), wall_cap_s: tier.pick(50.0, 2400.0), prune_violating: true };
+    ex.run(&|h: &[Op]| {
+        let total_nodes: u32 = h.iter().map(|o| if let Op::CreateNodes { n, .. } = o { *n } else { 0 }).sum();
+        let mut out = Outcome { violations: vec![], runs: 1, steps: 0, label: String::new(), nontrivial: total_nodes >= 512 };
+        let mon = Recorder::new_monitor();
+        let mut r = with_hooks(mon.clone(), || run_history(h));
+        out.steps = r.steps;
+        let foreign = mon.foreign_writes.lock().unwrap().clone();
+        if let Some(f) = foreign.first() {
+            let who: Vec<&str> = f.split('\'').collect();
+            let class = format!("foreign_page_write:{}->{}", who.get(3).unwrap_or(&"?"), who.get(1).unwrap_or(&"?"));
+            out.label = class.clone();
+            out.violations.push(viol(&class, h, format!("{} foreign writes, first: {f}", foreign.len()), json!({})));
+            return out;
+        }
+        if let Some((i, e)) = r.failed_at.clone() {
+            let class = format!("step_failed:{}:{}", h[i].kind(), err_class(&e));
+            out.label = class.clone();
+            out.violations.push(viol(&class, &h[..=i], e, json!({})));
+            return out;
+        }
+        let model = r.model.clone();
+        let sut = r.sut.as_mut().unwrap();
+        let d = sut.dump(sp);
+        if let Some((class, detail)) = d.check_model(&model, true).into_iter().find(|(c, _)| !c.starts_with("label") || true) {
+            out.label = class.clone();
+            out.violations.push(viol(&class, h, detail, json!({})));
+            return out;
+        }
+        for step in [Op::DropOpen, Op::Vacuum] {
+            let mut hh = h.to_vec();
+            hh.push(step.clone());
+            out.steps += 1;
+            let res = with_hooks(mon.clone(), || sut.apply(&step, &model));
+            if let Err(e) = res {
+                let class = format!("{}_failed:{}", step.kind(), err_class(&e));
+                out.label = class.clone();
+                out.violations.push(viol(&class, &hh, e, json!({})));
+                return out;
+            }
+            let d2 = sut.dump(sp);
+            if let Some((class, detail)) = d.diff(&d2) {
+                let class = format!("after_{}:{class}", step.kind());
+                out.label = class.clone();
+                out.violations.push(viol(&class, &hh, detail, json!({})));
+                return out;
+            }
+        }
+        let foreign = mon.foreign_writes.lock().unwrap().clone();
+        if let Some(f) = foreign.first() {
+            out.label = "foreign_page_write_on_reopen".into();
+            out.violations.push(viol("foreign_page_write_on_reopen", h, f.clone(), json!({})));
+            return out;
+        }
+        out.label = "intact".into();
+        out
+    });
+    rep.assume("page ownership is tracked by structure kind (idmap, btree, blob, csr, catalog); two B-trees writing each other's pages would not be told apart by the monitor, only by the dump oracle");
+    rep.finish()
+}
